@@ -100,6 +100,10 @@ type Scenario struct {
 	// PostCheck, when set, is evaluated in the parent on the merged outcome counts of this scenario
 	// (properties about the SET of reachable outcomes, e.g. independence).
 	PostCheck func(outcomes map[string]int) *Violation
+	// KeyNamesBound: a violation's key gets the suffix ":first-seen-with-<b>-deviations" - the smallest deviation bound at
+	// which the scenario shows it (bounds are explored in ascending order). A known finding recorded that way does not
+	// hide the same damage arriving with fewer deviations.
+	KeyNamesBound bool
 	// MaxBound / MaxBoundQuick cap the deviation bound for this scenario (0 = use the run's bound).
 	MaxBound      int
 	MaxBoundQuick int
@@ -473,6 +477,7 @@ func Main(id string, scenarios []*Scenario, plan Plan, level string, assumptions
 	totalExec, totalPoints, totalHorizon := 0, 0, 0
 	outcomes := map[string]int{}
 	samples := &ev.Samples{N: 4}
+	firstBound := map[string]int{}
 	for ji, st := range results {
 		j := jobs[ji]
 		a := perBound[j.Bound]
@@ -505,13 +510,23 @@ func Main(id string, scenarios []*Scenario, plan Plan, level string, assumptions
 		for _, v := range st.Violations {
 			// confirm by replaying 3x in this process before believing it
 			sc := scenarios[j.Scenario]
+			if sc.KeyNamesBound {
+				if b, seen := firstBound[sc.Name+"\x00"+v.Key]; seen && b < j.Bound {
+					continue // reported at the smaller bound already
+				}
+				firstBound[sc.Name+"\x00"+v.Key] = j.Bound
+			}
 			for k := 0; k < 3; k++ {
 				_, rv, _ := Replay(sc, v.Choices)
 				if rv == nil || rv.Key != v.Key {
 					ev.Tool("violation %s in %s did not reproduce on replay %d (got %v): nondeterminism in the harness", v.Key, sc.Name, k, rv)
 				}
 			}
-			run.Violation(v.Key, fmt.Sprintf("[%s, bound %d, %d executions] %s", sc.Name, j.Bound, v.Count, v.Desc),
+			key := v.Key
+			if sc.KeyNamesBound {
+				key = fmt.Sprintf("%s:first-seen-with-%d-deviations", v.Key, j.Bound)
+			}
+			run.Violation(key, fmt.Sprintf("[%s, bound %d, %d executions] %s", sc.Name, j.Bound, v.Count, v.Desc),
 				map[string]interface{}{"scenario": sc.Name, "choices": v.Choices})
 		}
 	}
